@@ -207,5 +207,29 @@ def stepOp (b : SBag) : Op → Option SBag × String
     let tbl := patternTable cols
     (some { b with rows := b.rows.zipIdx.map fun (r, i) => (r.1, tbl.filterMap fun p => p.1[i]?) },
      "ok[" ++ plusList (tbl.map Prod.snd) ++ "]")
+  | .unalign =>
+    -- the result is a NEW plain sequence set (default duplicate-name policy, same alphabet) into which every
+    -- row has been inserted, in order, under its name with its sequence without the gap characters (an
+    -- insertion under a name already in use renames, as every insertion does: with pairwise distinct names the
+    -- rows are exactly the degapped rows, `C01.unalign_rows_of_distinct_names`); no sequence set exists for an alphabet other
+    -- than the three known ones
+    if !seqBagAlphabetOK b.alphabet then (none, "EXIT") else
+    (some (addAllIgnore { alphabet := b.alphabet } (b.rows.map fun r => (r.1, r.2.filter fun c => c != GAP))), "ok")
+  | .renameRe ok names =>
+    -- a regular expression that does not compile is an error and nothing changes; otherwise the `i`-th row
+    -- takes the `i`-th new name (whatever it is: two rows may end up with one name), sequences and order stay;
+    -- the name map receives `old name ↦ new name` for every row, in row order (a map: a later entry for the
+    -- same old name replaces the earlier one)
+    if !ok then (some b, "err" ++ mapStatus []) else
+    (some { b with rows := b.rows.zipIdx.map fun (r, i) => (names.getD i r.1, r.2) },
+     "ok" ++ mapStatus (renameMap b.names names []))
+  | .setAlpha a =>
+    -- only the nucleotide or the amino-acid alphabet can be given, and only when the sequences fit it: the
+    -- alphabet detected from all residues (`detectAlphabetBag`, the published tables) is that one or "both";
+    -- anything else is an error and nothing changes
+    let d := detectAlphabetBag (b.rows.map Prod.snd)
+    if a == 1 && (d == NUCLEOTIDS || d == BOTH) then (some { b with alphabet := NUCLEOTIDS }, "ok")
+    else if a == 0 && (d == AMINOACIDS || d == BOTH) then (some { b with alphabet := AMINOACIDS }, "ok")
+    else (some b, "err")
 
 end Gv.Spec
